@@ -355,7 +355,7 @@ func MaxCharLen(tier string) int {
 
 const MaxTokens = 4
 
-const XExpParts = 4
+const XExpParts = 2
 
 // Size is the size of the group's index space (for string groups some indices belong to a sibling
 // group and are skipped: see at()).
